@@ -114,18 +114,6 @@ Qed.
 (* ------------------------------------------------------------------------------------------ *)
 (* preservation *)
 
-Ltac bsplit :=
-  repeat match goal with
-  | |- context [if ?b then _ else _] => destruct b eqn:?
-  | H : context [if ?b then _ else _] |- _ => destruct b eqn:?
-  end.
-
-Ltac listfin :=
-  repeat (rewrite ?written_app, ?count_eof_app, ?count_close_app, ?app_nil_r, <- ?app_assoc in *;
-          cbn [written count_eof count_close app] in * );
-  try solve [auto | congruence | lia | discriminate
-            | apply ordered_snoc; cbn [is_data_or_eof]; solve [auto | congruence | discriminate | lia] ].
-
 Ltac spec_all :=
   repeat match goal with
   | H : ?x = ?x -> _ |- _ => specialize (H eq_refl)
@@ -135,28 +123,37 @@ Ltac spec_all :=
   | H : Confirmed = Failed -> _ |- _ => clear H
   | H : _ /\ _ |- _ => destruct H
   | H : exists _, _ |- _ => destruct H
+  | H : mkF _ _ _ _ = fw0 |- _ => inversion H; clear H
   end.
 
-Ltac fieldfin :=
-  cbn; intros; spec_all; subst;
-  try match goal with |- exists t, _ => eexists; split; [|intros] end;
-  listfin.
+(* split on one boolean, simplify, prune *)
+Ltac db b := destruct b; cbn in *; spec_all; try discriminate; subst.
 
-Ltac cases :=
-  cbn in *;
-  repeat match goal with
-  | b : bool |- _ => destruct b; cbn in *; try discriminate
-  end;
-  spec_all; try discriminate; subst.
+Ltac lfin :=
+  repeat (rewrite ?written_app, ?count_eof_app, ?count_close_app, ?app_nil_r, <- ?app_assoc;
+          cbn [written count_eof count_close app]);
+  solve [ reflexivity | assumption | discriminate | congruence | lia
+        | apply ordered_snoc; cbn [is_data_or_eof];
+          solve [assumption | reflexivity | congruence | discriminate | lia | intros; congruence] ].
 
-Lemma inv_step c s o : INV c s -> INV c (step c s o).
+Ltac leaf1 :=
+  cbn; intros; try discriminate;
+  try match goal with |- exists t, _ => eexists end;
+  repeat match goal with |- _ /\ _ => split end; intros;
+  first [ lfin | subst; lfin | spec_all; subst; lfin ].
+Ltac leaf := constructor; leaf1.
+
+Section Step.
+Variable c : cfg.
+
+Ltac start s H o :=
+  intros H; destruct s as [[ta pa ba ea] [tb pb bb eb] p oa ob la lb ia ib asr];
+  destruct H as [H1 H2 H3 H4 H5 H6 H7 H8 H9 H10 H11 H12 H13 H14 H15 H16 H17 H18 H19];
+  cbn in H1, H2, H3, H4, H5, H6, H7, H8, H9, H10, H11, H12, H13, H14, H15, H16, H17, H18, H19;
+  subst pa tb bb; destruct c as [fc fl fr]; cbn in *.
+
+Lemma inv_dataA s d : INV c s -> legal s (DataA d) = true -> INV c (apply c s (DataA d)).
 Proof.
-  intros H. unfold step. destruct (legal s o) eqn:Hl; [|exact H].
-  destruct s as [[ta pa ba ea] [tb pb bb eb] p oa ob la lb ia ib asr].
-  destruct H as [H1 H2 H3 H4 H5 H6 H7 H8 H9 H10 H11 H12 H13 H14 H15 H16 H17 H18 H19].
-  cbn in H1, H2, H3, H4, H5, H6, H7, H8, H9, H10, H11, H12, H13, H14, H15, H16, H17, H18, H19.
-  subst pa tb bb. destruct c as [fc fl fr].
-  destruct o.
-  all: try solve [destruct p; cases; constructor; fieldfin].
-  all: destruct p; cases; constructor; fieldfin.
-Abort.
+  start s H o. intros Hl. db ta. db ea. destruct p; db pb; constructor; try leaf1.
+Qed.
+End Step.
